@@ -38,6 +38,18 @@ Theorem C02_exactly_once : forall (V : Type) (C : cfg V), framed C ->
 Proof. exact (@called_exactly_once). Qed.
 Print Assumptions C02_exactly_once.
 
+(* "... until it is explicitly invalidated": removing a set of results closed under "depends on" (what
+   `jug invalidate` removes: C09) leaves a sound store, and the execute that follows calls exactly the
+   functions of the removed tasks - each once - and none of the kept ones, whose values stay *)
+Theorem C02_rerun_only_after_invalidation : forall (V : Type) (C : cfg V), framed C ->
+  forall (r : tid -> option V) (keep : tid -> bool) tr (s : st V), Sound C r ->
+  (forall t d, keep t = true -> r t <> None -> In d (c_deps C t) -> keep d = true) ->
+  forallb quiet tr = true -> run C (init (fun t => if keep t then r t else None)) tr = Some s ->
+  forall t, (keep t = true -> r t <> None -> execs s t = 0 /\ results s t = r t) /\
+            (keep t = false -> results s t <> None -> execs s t = 1).
+Proof. exact (@execute_after_removal). Qed.
+Print Assumptions C02_rerun_only_after_invalidation.
+
 (* the lock discipline behind (a) and (b), as an invariant of every reachable state *)
 Theorem C02_lock_discipline : forall (V : Type) (C : cfg V), framed C ->
   forall r0 tr s, reach C r0 tr s -> Inv C s.
